@@ -38,24 +38,60 @@ enum TimeFormat {
     Strftime(String),
 }
 
+/// Seconds (towards the past for negative values) and nanoseconds (always
+/// counting forward) of a time relative to the epoch.
+fn unix_time(time: SystemTime) -> (i64, u32) {
+    match time.duration_since(SystemTime::UNIX_EPOCH) {
+        Ok(after) => (
+            i64::try_from(after.as_secs()).unwrap_or(i64::MAX),
+            after.subsec_nanos(),
+        ),
+        Err(e) => {
+            let before = e.duration();
+            let secs = i64::try_from(before.as_secs()).map_or(i64::MIN, |s| -s);
+            match before.subsec_nanos() {
+                0 => (secs, 0),
+                nanos => (secs.saturating_sub(1), 1_000_000_000 - nanos),
+            }
+        }
+    }
+}
+
+/// The time in the local time zone, when the calendar can express it (file
+/// systems store times far beyond the years it covers).
+pub(super) fn local_date_time(time: SystemTime) -> Option<DateTime<Local>> {
+    let (secs, nanos) = unix_time(time);
+    DateTime::from_timestamp(secs, nanos).map(|utc| utc.with_timezone(&Local))
+}
+
 impl TimeFormat {
     fn apply(&self, time: SystemTime) -> Result<Cow<'static, str>, Box<dyn Error>> {
+        let out_of_range = || format!("time {:?} is out of range", unix_time(time).0);
         let formatted = match self {
             Self::SinceEpoch => {
-                let duration = time.duration_since(SystemTime::UNIX_EPOCH)?;
-                format!("{}.{:09}0", duration.as_secs(), duration.subsec_nanos())
+                // (before 1970: -1.25 is tv_sec = -2 and tv_nsec = 750000000)
+                let (secs, nanos) = unix_time(time);
+                if secs < 0 && nanos > 0 {
+                    let (secs, nanos) = (secs + 1, 1_000_000_000 - nanos);
+                    let sign = if secs == 0 { "-" } else { "" };
+                    format!("{sign}{secs}.{nanos:09}0")
+                } else {
+                    format!("{secs}.{nanos:09}0")
+                }
             }
             Self::Ctime => {
                 const CTIME_FORMAT: &str = "%a %b %d %H:%M:%S.%f0 %Y";
 
-                DateTime::<Local>::from(time)
+                local_date_time(time)
+                    .ok_or_else(out_of_range)?
                     .format(CTIME_FORMAT)
                     .to_string()
             }
             Self::Strftime(format) => {
                 // Handle a special case
                 let custom_format = format.replace("%+", "%Y-%m-%d+%H:%M:%S%.f0");
-                DateTime::<Local>::from(time)
+                local_date_time(time)
+                    .ok_or_else(out_of_range)?
                     .format(&custom_format)
                     .to_string()
             }
